@@ -133,6 +133,7 @@ pub fn record(rest: &[String]) -> anyhow::Result<()> {
             let mut ast = {
                 let mut g = gen::Gen::new(&mut rng);
                 g.set_fail_rate(if i % 3 == 0 { 30 } else { 3 });
+                g.set_dialect(true);
                 g.module(4 + (i % 6) as usize, i % 2 == 0)
             };
             let mut src = print::module(&mut ast);
